@@ -5,8 +5,9 @@ set -u
 PATCH=$(realpath "$1"); ID=$2; TIER=${3:-quick}
 cd /repo || exit 2
 if [ -n "$(git status --porcelain --untracked-files=no)" ]; then echo "repo not clean"; exit 2; fi
-if ! git apply --check "$PATCH" 2>/dev/null; then echo "SEEDTEST patch does not apply: $PATCH"; exit 3; fi
-git apply "$PATCH"
+if git apply --check "$PATCH" 2>/dev/null; then git apply "$PATCH"
+elif git apply -3 "$PATCH" >/dev/null 2>&1 && [ -z "$(git diff --name-only --diff-filter=U)" ]; then git reset -q; echo "SEEDTEST applied with 3-way merge"
+else git checkout -- . 2>/dev/null; git reset -q --hard HEAD; echo "SEEDTEST patch does not apply: $PATCH"; exit 3; fi
 trap 'git -C /repo checkout -- . ' EXIT
 cd /verif && ./run.sh "$ID" "$TIER" > .work/seedtest.$ID.out 2>&1
 rc=$?
